@@ -671,12 +671,17 @@ class Legacy(object):
     def blank_output(self, arg):
         """CTxOut() with the constructor defaults folding to (-1, empty script)"""
         repo, fi = self.repo, self.fi
-        if isinstance(arg, ast.Call) and not arg.args and not arg.keywords:
+        if isinstance(arg, ast.Call) and len(arg.args) <= 1 and not arg.keywords:
             cv = repo.fold(arg.func, fi.module)
             if isinstance(cv, ClassRef) and cv.info.name in ('CTxOut', 'CMutableTxOut'):
                 init = repo.lookup_method(cv.info, '__init__')
                 d = init.defaults() if init else {}
                 nv = repo.fold(d.get('nValue'), init.module) if 'nValue' in d else UNKNOWN
+                if arg.args:
+                    # CTxOut(v): the value given explicitly (the first parameter after self)
+                    if not (init and init.params[1:2] == ['nValue']):
+                        return None
+                    nv = repo.fold(arg.args[0], fi.module)
                 sp = d.get('scriptPubKey')
                 spv = None
                 if isinstance(sp, ast.Call) and not sp.args:
